@@ -344,7 +344,7 @@ func (C17) reads(tp *tape.Tape) core.Result {
 	}
 	// 1 in 40: the same session through the built binary
 	if tp.Draw(40) == 0 && errLine < 0 {
-		if v := binaryReadVariant(h, stmts, content); v != nil {
+		if v := binaryReadVariant(h, stmts, content, tp.Draw(4)); v != nil {
 			r.Violation = v
 			goto done
 		}
@@ -389,7 +389,12 @@ var CalcBinary = func() string {
 // binaryReadVariant runs the statements as a script through the real binary with stdin
 // from a regular file and from a pre-filled pipe; both must print what the in-process
 // script-flavour session prints.
-func binaryReadVariant(h *Hist, stmts []readStmt, content []byte) *core.Violation {
+//
+// exitCode > 0 appends a final statement that writes a last line and ends the interpreter with
+// exit(exitCode) from inside a function: everything written before must have reached stdout and
+// the process must end with that status (in process, exit() would end the simulator, so this
+// clause only exists against the binary).
+func binaryReadVariant(h *Hist, stmts []readStmt, content []byte, exitCode int) *core.Violation {
 	if _, err := os.Stat(CalcBinary); err != nil {
 		return nil
 	}
@@ -402,6 +407,9 @@ func binaryReadVariant(h *Hist, stmts []readStmt, content []byte) *core.Violatio
 	}
 	for _, st := range stmts {
 		script.WriteString(st.src + "\n")
+	}
+	if exitCode > 0 {
+		fmt.Fprintf(&script, "die = (msg, code) -> {\nwrite(msg)\nexit(code)\n}\ndie(\"last words %%d\\n\", %d)\nwrite(\"not reached\")\n", exitCode)
 	}
 	// in-process reference in script flavour with the whole content in one chunk
 	ref := sess.New()
@@ -419,6 +427,9 @@ func binaryReadVariant(h *Hist, stmts []readStmt, content []byte) *core.Violatio
 				want.WriteString("RUNTIME ERROR")
 			}
 		}
+	}
+	if exitCode > 0 {
+		want.WriteString("last words %d\n")
 	}
 	dir, err := os.MkdirTemp("", "simcalc-c17-")
 	if err != nil {
@@ -475,8 +486,8 @@ func binaryReadVariant(h *Hist, stmts []readStmt, content []byte) *core.Violatio
 		if hung {
 			return norm([]byte(out)), fmt.Errorf("did not terminate")
 		}
-		if code != 0 {
-			return norm([]byte(out)), fmt.Errorf("exit status %d", code)
+		if code != exitCode {
+			return norm([]byte(out)), fmt.Errorf("exit status %d, want %d", code, exitCode)
 		}
 		return norm([]byte(out)), nil
 	}
@@ -573,7 +584,15 @@ func (C17) pure(tp *tape.Tape) core.Result {
 	}
 	for i := 0; i < nst; i++ {
 		var src string
-		switch tp.Draw(10) {
+		switch tp.Draw(11) {
+		case 10: // a program is free to rebind a built-in's name; the other built-ins must not care
+			src = []string{
+				"fromto = (a, b) -> while a <= b {\nyield a\na = a + 1\n}",
+				"fromto = (a, b) -> yield 77",
+				"elems = (a) -> yield 55",
+				"indices = (a) -> {\nyield 0 - 1\n}",
+				"i = 40", "a = [9, 9, 9, 9, 9, 9, 9]", "b = 2", "e = 3"}[tp.Draw(8)]
+			r.Inc("P.builtin_name_rebound_by_program", 1)
 		case 0: // toa renders exactly what write prints
 			v := drawValueExpr(tp, 2)
 			o1, _, stop := step("write(" + v + ")")
